@@ -457,10 +457,16 @@ class Model(object):
                         changed = True
                         break
                     if st == ERROR:
-                        n = cur.copy()
-                        n.insts[iid]['trig'] = list(trig)
-                        self._after_complete(n, iid, ERROR)
-                        work.append(n)
+                        for ctx, conflict in self._merge(
+                                cur, [cur.insts[t]['out'] for t in trig],
+                                trig):
+                            n = cur.copy()
+                            if conflict:
+                                n.flags.add('data_conflict')
+                            n.insts[iid]['trig'] = list(trig)
+                            n.insts[iid]['ctx'] = ctx
+                            self._after_complete(n, iid, ERROR)
+                            work.append(n)
                         changed = True
                         break
             if changed:
@@ -593,7 +599,73 @@ def matches(impl_proj, model_out, compare_output=True, compare_ctx=True):
     if freeze(mt) != freeze(it):
         return False
     if compare_output and model_out['wf'] == SUCCESS \
+            and 'reverse' not in model_out['flags'] \
             and 'succeed_cmd' not in model_out['flags'] \
             and 'output_conflict' not in model_out['flags']:
         return model_out['output'] == impl_proj['output']
     return True
+
+
+# ------------------------------------------------------------------ reverse
+def reverse_outcomes(prog, target, results):
+    """Reverse workflow: run the dependency closure of `target`; a task
+    starts once all tasks it requires succeeded; the workflow succeeds iff
+    every task of the closure succeeded."""
+    tasks = prog['tasks']
+    td = (prog.get('task-defaults') or {}).get('requires') or []
+
+    def req(t):
+        r = set(tasks[t].get('requires') or []) | set(td)
+        r.discard(t)
+        return sorted(r)
+
+    closure, todo = set(), [target]
+    while todo:
+        t = todo.pop()
+        if t in closure:
+            continue
+        closure.add(t)
+        todo.extend(req(t))
+    outcomes = {}
+    seen = set()
+
+    def result_of(t):
+        key = tasks[t].get('key', t)
+        seq = results.get(key) or ['S']
+        return SUCCESS if seq[0] == 'S' or (
+            isinstance(seq[0], (list, tuple)) and seq[0][0] == 'S') else ERROR
+
+    def rec(state):
+        k = freeze(sorted(state.items()))
+        if k in seen:
+            return
+        seen.add(k)
+        # start everything that is ready
+        changed = True
+        state = dict(state)
+        while changed:
+            changed = False
+            for t in sorted(closure):
+                if t not in state and all(state.get(r) == SUCCESS
+                                          for r in req(t)):
+                    state[t] = RUNNING
+                    changed = True
+        running = [t for t, s in state.items() if s == RUNNING]
+        if not running:
+            wf = SUCCESS if all(state.get(t) == SUCCESS for t in closure) \
+                else ERROR
+            out = {'wf': wf,
+                   'tasks': sorted(([t, s, {}, {}] for t, s in state.items()),
+                                   key=freeze),
+                   'output': None, 'flags': ['reverse']}
+            outcomes[freeze(out)] = out
+            return
+        for t in running:
+            s2 = dict(state)
+            s2[t] = result_of(t)
+            rec(s2)
+
+    rec({})
+    outs = list(outcomes.values())
+    return {'outcomes': outs, 'confluent': len(outs) == 1,
+            'truncated': False}
